@@ -32,4 +32,31 @@ def jopt (f : α → Json) : Option α → Json
 
 abbrev Handler := Json → Except String Json
 
+def dispatch (handle : String → Option Handler) (line : String) : Json :=
+  match Json.parse line with
+  | .error e => Json.mkObj [("driver_error", Json.str s!"json: {e}")]
+  | .ok j =>
+    match j.getObjVal? "op" >>= Json.getStr? with
+    | .error e => Json.mkObj [("driver_error", Json.str e)]
+    | .ok op =>
+      match handle op with
+      | none => Json.mkObj [("driver_error", Json.str s!"unknown op {op}")]
+      | some h =>
+        match h j with
+        | .ok r => Json.mkObj [("r", r)]
+        | .error e => Json.mkObj [("driver_error", Json.str e)]
+
+partial def loop (handle : String → Option Handler) (hin hout : IO.FS.Stream) : IO Unit := do
+  let line ← hin.getLine
+  if line.isEmpty then return ()
+  hout.putStrLn (dispatch handle line).compress
+  loop handle hin hout
+
+/-- one JSON request per stdin line, one JSON answer per stdout line -/
+def mainLoop (handle : String → Option Handler) : IO Unit := do
+  let hin ← IO.getStdin
+  let hout ← IO.getStdout
+  loop handle hin hout
+  hout.flush
+
 end Driver
